@@ -512,33 +512,94 @@ func (c *Ctx) labelCoversAllKeys() {
 		viaCmp := len(srcs) > 0
 		for blk, v := range srcs {
 			// the new index is the loop counter and the update is guarded by a comparison that depends on
-			// a function of (&keys[0], &keys[i])
+			// a function of (&keys[0], &keys[i]): a call on the two keys, or - the same scan written in place - the
+			// counter of an inner loop that reads one bit of each per round and stops at the first difference
+			pairCall := func(x ssa.Value) bool {
+				c2 := callOf(x)
+				if c2 == nil || len(c2.Call.Args) < 2 {
+					return false
+				}
+				a, b := idxOf(c2.Call.Args[0]), idxOf(c2.Call.Args[1])
+				ka, okK := constInt(a)
+				return okK && ka == 0 && b == v
+			}
+			var scanCounter *ssa.Phi
+			allInstrs(f, func(hb *ssa.BasicBlock, in ssa.Instruction) {
+				ph, ok := in.(*ssa.Phi)
+				if !ok || scanCounter != nil || len(ph.Edges) != 2 || !isInteger(ph.Type()) {
+					return
+				}
+				// n = 0; n++ per round
+				isCounter := false
+				for j := 0; j < 2; j++ {
+					if z, ok := constInt(ph.Edges[j]); ok && z == 0 {
+						if inc, ok := ph.Edges[1-j].(*ssa.BinOp); ok && inc.Op == token.ADD && inc.X == ssa.Value(ph) {
+							if one, ok := constInt(inc.Y); ok && one == 1 {
+								isCounter = true
+							}
+						}
+					}
+				}
+				if !isCounter {
+					return
+				}
+				body := naturalLoop(hb)
+				var r0, rv *ssa.Call
+				for lb := range body {
+					for _, li := range lb.Instrs {
+						if rc, ok := li.(*ssa.Call); ok && callQName(&rc.Call) == bocPath+".BitString.ReadBit" {
+							ix := idxOf(rc.Call.Args[0])
+							if k, ok := constInt(ix); ok && k == 0 {
+								r0 = rc
+							} else if ix == v {
+								rv = rc
+							}
+						}
+					}
+				}
+				if r0 == nil || rv == nil {
+					return
+				}
+				// a round is counted only when the two bits are equal: some test in the loop compares them
+				cmp := false
+				for lb := range body {
+					if iff := lastIf(lb); iff != nil {
+						if bo, ok := iff.Cond.(*ssa.BinOp); ok && (bo.Op == token.NEQ || bo.Op == token.EQL) {
+							from := func(x ssa.Value, rc *ssa.Call) bool {
+								return derivesFrom(x, func(y ssa.Value) bool { return y == ssa.Value(rc) }, false)
+							}
+							if (from(bo.X, r0) && from(bo.Y, rv)) || (from(bo.X, rv) && from(bo.Y, r0)) {
+								// ... and the increment lies behind the EQUAL side of that test
+								eqEdge := 0
+								if bo.Op == token.NEQ {
+									eqEdge = 1
+								}
+								for j := 0; j < 2; j++ {
+									if inc, ok := ph.Edges[j].(*ssa.BinOp); ok && inc.Block() != nil && edgeDominates(f, edge{lb, eqEdge}, inc.Block()) {
+										cmp = true
+									}
+								}
+							}
+						}
+					}
+				}
+				if cmp {
+					scanCounter = ph
+				}
+			})
+			measure := func(x ssa.Value) bool {
+				return pairCall(x) || (scanCounter != nil && x == ssa.Value(scanCounter))
+			}
 			guard := false
 			for _, ft := range factsAt(f, blk) {
-				if derivesFrom(ft.Cond, func(x ssa.Value) bool {
-					c2 := callOf(x)
-					if c2 == nil || len(c2.Call.Args) < 2 {
-						return false
-					}
-					a, b := idxOf(c2.Call.Args[0]), idxOf(c2.Call.Args[1])
-					ka, okA := constInt(a)
-					return okA && ka == 0 && b == v
-				}, false) {
+				if derivesFrom(ft.Cond, measure, false) {
 					guard = true
 				}
 			}
 			// also accept the guard on the block that assigns (the If is in the same block as the call)
 			if !guard {
 				for _, p := range blk.Preds {
-					if iff := lastIf(p); iff != nil && derivesFrom(iff.Cond, func(x ssa.Value) bool {
-						c2 := callOf(x)
-						if c2 == nil || len(c2.Call.Args) < 2 {
-							return false
-						}
-						a, b := idxOf(c2.Call.Args[0]), idxOf(c2.Call.Args[1])
-						ka, okK := constInt(a)
-						return okK && ka == 0 && b == v
-					}, false) {
+					if iff := lastIf(p); iff != nil && derivesFrom(iff.Cond, measure, false) {
 						guard = true
 					}
 				}
@@ -562,6 +623,9 @@ func (c *Ctx) labelCoversAllKeys() {
 						nCall = c2
 					}
 				})
+				if nCall == nil && scanCounter != nil {
+					nCall = scanCounter
+				}
 				isBest := func(x ssa.Value) bool {
 					ph, ok := x.(*ssa.Phi)
 					return ok && nCall != nil && derivesFrom(ph, func(y ssa.Value) bool { return y == nCall }, false)
